@@ -132,6 +132,35 @@ func shapeFamilies() []shapeFamily {
 		"wide-bools-nulls":                    func(n int) string { return bigArray(n, "true,null") },
 		"wide-object-of-objects":              func(n int) string { return "{" + strings.TrimSuffix(rep(`"k":{"a":1},`, n), ",") + "}" },
 	}
+	// cross product: a big container, then a sibling that holds many / deeply nested small
+	// containers, inside an array and inside an object (size hints handed down or sideways)
+	bigs := map[string]func(n int) string{"big-object": bigObject, "big-array": func(n int) string { return bigArray(n, "1") }}
+	followers := map[string]func(n int) string{
+		"deep-object-chain": func(n int) string { return rep(`{"a":`, n) + "1" + rep("}", n) },
+		"deep-array-chain":  func(n int) string { return rep("[", n) + rep("]", n) },
+		"deep-mixed-chain":  func(n int) string { return rep(`{"a":[`, n/2) + "1" + rep("]}", n/2) },
+		"many-small-objects-in-object": func(n int) string {
+			var b strings.Builder
+			b.WriteString("{")
+			for i := 0; i < n; i++ {
+				if i > 0 {
+					b.WriteString(",")
+				}
+				fmt.Fprintf(&b, `"m%d":{"x":1}`, i)
+			}
+			b.WriteString("}")
+			return b.String()
+		},
+		"many-small-arrays-in-array":  func(n int) string { return "[" + strings.TrimSuffix(rep("[1],", n), ",") + "]" },
+		"many-small-objects-in-array": func(n int) string { return "[" + strings.TrimSuffix(rep(`{"x":1},`, n), ",") + "]" },
+	}
+	for bn, bf := range bigs {
+		for fn, ff := range followers {
+			bf, ff := bf, ff
+			docs[bn+"-then-"+fn+"/in-array"] = func(n int) string { return "[" + bf(n) + "," + ff(n) + "]" }
+			docs[bn+"-then-"+fn+"/in-object"] = func(n int) string { return `{"first":` + bf(n) + `,"second":` + ff(n) + "}" }
+		}
+	}
 	var names []string
 	for k := range docs {
 		names = append(names, k)
@@ -148,7 +177,9 @@ func shapeFamilies() []shapeFamily {
 			one("UnescapeStringContent/"+k, d, func(b []byte) { rjson.UnescapeStringContent(b[1:len(b)-1], nil) }),
 		)
 	}
-	for _, k := range []string{"deep-arrays", "deep-objects", "deep-with-siblings", "wide-numbers", "escapes-at-every-level", "big-object-then-small-objects", "long-escaped-string", "deep-then-error-arrays", "deep-then-error-objects", "deep-then-eof-mixed"} {
+	docs["deep-objects-in-object"] = func(n int) string { return `{"a":0,"k":` + rep(`{"a":`, n) + "1" + rep("}", n) + "}" }
+	docs["deep-mixed-in-object"] = func(n int) string { return `{"k":` + rep(`[{"a":0,"b":`, n/2) + "1" + rep("}]", n/2) + "}" }
+	for _, k := range []string{"deep-objects-in-object", "deep-mixed-in-object", "deep-arrays", "deep-objects", "deep-with-siblings", "wide-numbers", "escapes-at-every-level", "big-object-then-small-objects", "long-escaped-string", "deep-then-error-arrays", "deep-then-error-objects", "deep-then-eof-mixed"} {
 		d := docs[k]
 		fams = append(fams,
 			one("Valid/"+k, d, func(b []byte) { rjson.Valid(b, nil) }),
@@ -156,6 +187,10 @@ func shapeFamilies() []shapeFamily {
 			one("HandleArrayValues-decline/"+k, d, func(b []byte) {
 				rjson.HandleArrayValues(b, rjson.ArrayValueHandlerFunc(func([]byte) (int, error) { return 0, nil }), nil)
 			}),
+			one("HandleObjectValues-decline/"+k, d, func(b []byte) {
+				rjson.HandleObjectValues(b, rjson.ObjectValueHandlerFunc(func(_, _ []byte) (int, error) { return 0, nil }), nil)
+			}),
+			one("SkipValueFast/"+k, d, func(b []byte) { rjson.SkipValueFast(b, nil) }),
 		)
 	}
 	fams = append(fams,
@@ -233,6 +268,11 @@ func shapeFamilies() []shapeFamily {
 	return fams
 }
 
+// noDepthCap: entry points without a nesting limit (the deep families may grow past 10,000 levels).
+func noDepthCap(family string) bool {
+	return strings.HasPrefix(family, "HandleArrayValues-decline/") || strings.HasPrefix(family, "HandleObjectValues-decline/") || strings.HasPrefix(family, "SkipValueFast/")
+}
+
 // c20ShapesChild runs in the uninstrumented binary: every family in ascending sizes, stopping a
 // family at its first size that violates the bound (so quadratic families never reach sizes that
 // would need gigabytes).
@@ -248,7 +288,7 @@ func c20ShapesChild() {
 		var prev, last measure
 		violated := false
 		for _, n := range sizes {
-			if strings.Contains(f.name, "deep") && n > 9000 {
+			if strings.Contains(f.name, "deep") && n > 9000 && !noDepthCap(f.name) {
 				continue
 			}
 			m := f.measure(n)
@@ -263,7 +303,7 @@ func c20ShapesChild() {
 		}
 		// adaptive deepening: while the cost still grows faster than 3x per doubling the family is
 		// followed to larger sizes (the absolute bound still decides; a linear family stops here)
-		for !violated && prev.Alloc > 0 && float64(last.Alloc) >= 3*float64(prev.Alloc) && last.N < 300000 && last.Alloc < 6<<30 && !strings.Contains(f.name, "deep") {
+		for !violated && prev.Alloc > 0 && float64(last.Alloc) >= 3*float64(prev.Alloc) && last.N < 300000 && last.Alloc < 6<<30 && (!strings.Contains(f.name, "deep") || noDepthCap(f.name)) {
 			m := f.measure(last.N * 2)
 			b, _ := json.Marshal(m)
 			fmt.Fprintf(out, "C20-MEASURE %s\n", b)
